@@ -237,6 +237,45 @@ fn check_eq(ctx: &mut Ctx, idx: u64, r: &mut Rng) -> Option<(String, J)> {
 			return Some((format!("{:?} fc={:.2} gain={:.2} q={:.3} sr={}: gain at {:.2} Hz is {:.3} dB, the cited design gives {:.3} dB", kind, fc, gain_db, q, sr, f2, db(got), db(want)), detail(&spec, sr, "frequency response")));
 		}
 	}
+	// a band that rested at exactly 0 dB is the same filter as one that rested a hair off 0 dB: both have been integrating
+	// the signal all along, so when the gain is then set (through the handle) both produce the same transient
+	if r.chance(0.4) {
+		use kira::effect::eq_filter::EqFilterBuilder;
+		use kira::effect::EffectBuilder;
+		use kira::{Decibels, Tween};
+		ctx.count("eq_gain_set_from_exactly_0_dB_checks", 1);
+		let amp = 0.25f64;
+		let f = r.log_in(10.0f64.max(fc / 10.0), (fc * 10.0).min(nyq * 0.9));
+		let n_warm = 128 * r.usize_in(2, 12);
+		let n_after = 128 * 8;
+		let x: Vec<Frame> = (0..n_warm + n_after).map(|i| Frame::from_mono((amp * (2.0 * PI * f * i as f64 / sr as f64).sin()) as f32)).collect();
+		let target = if gain_db.abs() < 0.5 { 6.0 } else { gain_db };
+		let tween_s = if r.chance(0.5) { 0.0 } else { r.f64_in(0.0, 0.01) };
+		let run = |rest_db: f32| -> Vec<Frame> {
+			let (mut fx, mut h) = EqFilterBuilder::new(kind, fc, Decibels(rest_db), q).build();
+			fx.init(sr, 128);
+			let info = crate::probes::mock_info();
+			let mut out = x.clone();
+			for (k, c) in out.chunks_mut(128).enumerate() {
+				if k * 128 == n_warm {
+					h.set_gain(Decibels(target as f32), Tween { duration: std::time::Duration::from_secs_f64(tween_s), ..Default::default() });
+				}
+				fx.on_start_processing();
+				fx.process(c, 1.0 / sr as f64, &info);
+			}
+			out
+		};
+		let (ya, yb) = (run(0.0), run(1e-4));
+		for i in n_warm..n_warm + n_after {
+			let d = (ya[i].left as f64 - yb[i].left as f64).abs();
+			if d > 2e-3 * amp * 10f64.powf(target.abs() / 20.0) {
+				return Some((
+					format!("{:?} fc={:.2} q={:.3} sr={}: a {:.1} Hz sine through a band resting at exactly 0 dB and through one resting at 0.0001 dB, both then set to {:.2} dB (tween {:.4} s) after {} frames: frame {} differs by {:.4} ({:e} vs {:e})", kind, fc, q, sr, f, target, tween_s, n_warm, i, d, ya[i].left, yb[i].left),
+					detail(&spec, sr, "gain set from exactly 0 dB"),
+				));
+			}
+		}
+	}
 	if ctx.want_sample() && idx % 7 == 1 {
 		ctx.sample(detail(&spec, sr, "eq: centre/shelf gains and sine-probe response vs SvfLinearTrapOptimised2"));
 	}
